@@ -16,6 +16,7 @@ K.register_module("runtime", "src/compiler/runtime.rs", "compiler::runtime::kani
 K.register_module("std_del", "src/stdlib/del.rs", "stdlib::del::kani_verif", STD)
 K.register_module("std_exists", "src/stdlib/exists.rs", "stdlib::exists::kani_verif", STD)
 K.register_module("crud", "src/value/value/crud/mod.rs", "value::value::crud::kani_verif", "compiler")
+K.register_module("kind", "src/value/kind.rs", "value::kind::kani_verif", "compiler")
 K.register_module("op", "src/compiler/expression/op.rs", "compiler::expression::op::kani_verif", "compiler")
 
 COMMON_TRUSTED = [
@@ -187,6 +188,15 @@ PROPS["C04"] = dict(
     not_covered=["lexer, LALRPOP parser, diagnostics formatter, grok, protobuf and ~180 stdlib functions are UNVERIFIED for panics",
                  "memory/stack exhaustion (out of scope by the property)", "Kani does not prove termination"],
     technique="contract-based deductive verification (aggregate of the safety obligations of all Verus and Kani units)",
+)
+
+PROPS["C19"] = dict(
+    level="proof",
+    text="type abstraction, scalar fragment (complete: all 2^8 x 2^8 pairs of scalar kinds, loop-free): union/merge contain every member of both operands, the subtype test agrees with membership, the kind of a scalar value is exactly its kind",
+    kani=["k_kind_union_scalar", "k_kind_superset_scalar", "k_kind_of_scalar_value"],
+    trusted=[],
+    not_covered=["collection kinds (known fields/indices, unknown): at_path / insert / remove / merge over BTreeMap-backed Collection - symbolic collection kinds are out of CBMC's reach here (rule 1) and BTreeMap iteration is outside Verus' subset",
+                 "so the path-operation clauses of C19 (get/insert/remove on types) are NOT decided by this check"],
 )
 
 HOOK_COMMITS = ["8978857", "33091a8"]
